@@ -101,7 +101,14 @@ def run_chunk(job, seed, lo, hi, tier, hashes_prefix=None, keep_hashes=False):
         cmd += job.extra_args
         part += 1
         p = subprocess.Popen(cmd, stdout=subprocess.PIPE, stderr=subprocess.PIPE, text=True, env=job.env(), errors="replace")
-        out, err = p.communicate()
+        hung = False
+        try:
+            out, err = p.communicate(timeout=40 + 0.02 * (hi - cur))
+        except subprocess.TimeoutExpired:
+            # a wedged worker (e.g. heap corruption by the code under test): kill it, keep what it printed
+            p.kill()
+            out, err = p.communicate()
+            hung = True
         last_run = None
         finished_runs = set()
         ended = False
@@ -111,12 +118,17 @@ def run_chunk(job, seed, lo, hi, tier, hashes_prefix=None, keep_hashes=False):
                 last_run = int(line[4:])
             elif line.startswith("OK "):
                 f = line.split(" ")
+                if len(f) < 7:
+                    continue
                 res.ok += 1
                 finished_runs.add(int(f[1]))
                 if keep_hashes:
                     res.loghashes[int(f[1])] = (f[2], f[3])
             elif line.startswith("FAIL "):
-                d = parse_fail(line)
+                try:
+                    d = parse_fail(line)
+                except (IndexError, ValueError):
+                    continue  # truncated line of a dying worker
                 finished_runs.add(d["run"])
                 res.fails.append(d)
             elif line.startswith("FINDING "):
@@ -140,6 +152,9 @@ def run_chunk(job, seed, lo, hi, tier, hashes_prefix=None, keep_hashes=False):
             # too many failures in this worker: do not continue this chunk
             break
         # crashed or was killed in run `last_run`
+        if hung and last_run is not None and last_run in finished_runs:
+            res.fails.append({"run": last_run, "planhash": "", "class": "crash.hang", "step": -1, "site": "process", "msg": "worker wedged after run %d" % last_run})
+            break
         if last_run is None:
             raise HarnessError("worker produced no output: %s\n%s" % (" ".join(cmd), err[-2000:]))
         if last_run not in finished_runs:
@@ -149,6 +164,8 @@ def run_chunk(job, seed, lo, hi, tier, hashes_prefix=None, keep_hashes=False):
                 signame = signal.Signals(sig).name
             except Exception:
                 pass
+            if hung:
+                signame = "hang"
             res.fails.append({
                 "run": last_run, "planhash": "", "class": "crash.%s" % signame, "step": -1, "site": "process",
                 "msg": "worker died (%s) during run %d; stderr tail: %s" % (signame, last_run, err[-400:].replace("\n", " | ")),
@@ -196,7 +213,7 @@ class Job:
             raise HarnessError("gen failed: %s" % p.stderr)
         return parse_plan_text(p.stdout)
 
-    def exec_plan(self, plan, tier, want_log=False, timeout=120):
+    def exec_plan(self, plan, tier, want_log=False, timeout=25):
         """Execute a plan in a fresh process. Returns dict(status=ok|fail|crash, class, step, site, msg, log, findings)."""
         d = tempfile.mkdtemp(prefix="cglue-verif-exec-")
         try:
@@ -703,4 +720,9 @@ def main(argv):
         return run_property(prop, tier, seed)
     except HarnessError as e:
         print("HARNESS-ERROR: %s" % e, file=sys.stderr, flush=True)
+        return 2
+    except Exception:
+        import traceback
+        traceback.print_exc()
+        print("HARNESS-ERROR: internal error in the driver", file=sys.stderr, flush=True)
         return 2
